@@ -64,7 +64,7 @@ ASSUMPTIONS = ["A2 (library effect table complete for the APIs evo uses)",
                "main_fig --to_html and main_ipython are outside the "
                "property's command list"]
 FLOORS = {"C17.1": 8, "C17.2": 8, "C17.3": 17, "C17.4": 4, "C17.6": 1,
-          "C17.7": 10, "C17.8": 2}
+          "C17.7": 10, "C17.8": 2, "C17.9": 4}
 
 CHK = "evo.tools.user.check_and_confirm_overwrite"
 CONFIRM = "evo.tools.user.confirm"
@@ -513,6 +513,35 @@ def check(ctx):
 
     # --------------------------------------------------------------- C17.4
     ctx.section(_check_prompt, ctx)
+    ctx.section(_warnings_flag, ctx)
+
+
+def _warnings_flag(ctx):
+    """C17.9: 'when warnings are not disabled ... asks': warnings are
+    disabled by --no_warnings only. The option must be a plain flag that is
+    off unless given — a computed default (no terminal on stdin, an
+    environment variable) disables the prompt without the user saying so."""
+    import ast
+    from ..lib import parser_arguments
+    hits = [(m, n, o, k) for m, n, o, k in parser_arguments(ctx.prog)
+            if "--no_warnings" in (o or [])]
+    ctx.require(len(hits) >= 4, "--no_warnings options of the parsers not "
+                "found")
+    for m, n, o, k in hits:
+        act, dfl = k.get("action"), k.get("default")
+        plain = isinstance(act, ast.Constant) and act.value == "store_true"
+        off = dfl is None or (isinstance(dfl, ast.Constant) and
+                              dfl.value is False)
+        ok = plain and off
+        ctx.ob("C17.9", f"{m}:{n.lineno}", ok,
+               f"{m}: --no_warnings is a plain flag, off unless given"
+               if ok else
+               f"{m}: --no_warnings "
+               + (f"defaults to `{ast.unparse(dfl)}`" if not off else
+                  "is not a store_true flag")
+               + " — confirmation prompts are switched off although the "
+                 "user did not disable warnings: existing files are "
+                 "overwritten without asking", key=f"C17.9:{m}")
 
 
 PURE = ("pathlib.PurePath", "pathlib.PurePosixPath",
